@@ -24,15 +24,15 @@ func hnswFn(w *World, role string) *ssa.Function {
 		sig := fn.Signature
 		switch role {
 		case "insert": // (node *hnswNode) — calls the layer search and appends to edge lists
-			if sig.Params().Len() == 1 && sig.Results().Len() == 0 && strings.HasSuffix(types.TypeString(sig.Params().At(0).Type(), qual), "hnswNode") {
+			if sig.Params().Len() == 1 && sig.Results().Len() == 0 && strings.HasSuffix(tstr(sig.Params().At(0).Type(), qual), "hnswNode") {
 				return fn
 			}
 		case "select": // ([]candidate, int) []uint32
-			if sig.Params().Len() == 2 && sig.Results().Len() == 1 && types.TypeString(sig.Results().At(0).Type(), nil) == "[]uint32" {
+			if sig.Params().Len() == 2 && sig.Results().Len() == 1 && tstr(sig.Results().At(0).Type(), nil) == "[]uint32" {
 				return fn
 			}
 		case "prune": // (uint32, int, int)
-			if sig.Params().Len() == 3 && sig.Results().Len() == 0 && types.TypeString(sig.Params().At(0).Type(), nil) == "uint32" {
+			if sig.Params().Len() == 3 && sig.Results().Len() == 0 && tstr(sig.Params().At(0).Type(), nil) == "uint32" {
 				return fn
 			}
 		}
@@ -296,7 +296,7 @@ func ruleHNSWOrder(r *Run, p string) {
 		c := NewCanon(w)
 		ok := false
 		allInstrs(fn, func(in ssa.Instruction) {
-			if mk, ok2 := in.(*ssa.MakeSlice); ok2 && types.TypeString(mk.Type(), nil) == "[]uint32" {
+			if mk, ok2 := in.(*ssa.MakeSlice); ok2 && tstr(mk.Type(), nil) == "[]uint32" {
 				if call, isCall := mk.Len.(*ssa.Call); isCall {
 					if b, isB := call.Call.Value.(*ssa.Builtin); isB && b.Name() == "min" && len(call.Call.Args) == 2 {
 						s0, s1 := c.S(call.Call.Args[0]), c.S(call.Call.Args[1])
@@ -806,7 +806,7 @@ func rulePQ(r *Run, p string) {
 		var enc *ssa.Function
 		for _, fn := range w.Funcs {
 			if fn.Signature.Recv() != nil && types.Identical(fn.Signature.Recv().Type(), k.IndexT) && fn.Signature.Results().Len() == 1 &&
-				strings.HasPrefix(types.TypeString(fn.Signature.Results().At(0).Type(), nil), "[]uint") && fn.Signature.Params().Len() == 1 {
+				strings.HasPrefix(tstr(fn.Signature.Results().At(0).Type(), nil), "[]uint") && fn.Signature.Params().Len() == 1 {
 				enc = fn
 			}
 		}
@@ -1407,7 +1407,7 @@ func ruleSubspaceKernel(r *Run, rule string) {
 				if _, ok := ld.X.(*ssa.IndexAddr); !ok {
 					return
 				}
-				if types.TypeString(ld.X.(*ssa.IndexAddr).X.Type(), nil) != "[][]float32" {
+				if tstr(ld.X.(*ssa.IndexAddr).X.Type(), nil) != "[][]float32" {
 					return
 				}
 				check(fn, st.Val, in, "table")
